@@ -252,3 +252,25 @@ Qed.
 Lemma std_lines_app d r1 r2 :
   flat_map (std_line d) (r1 ++ r2) = flat_map (std_line d) r1 ++ flat_map (std_line d) r2.
 Proof. apply flat_map_app. Qed.
+
+(** ** [format_linewise]: outside JSON the output of a --linewise run is the
+    per-line outputs put together in input order *)
+Lemma fmt_units_concat o rs : forall ts,
+  Forall2 (fun r t => format_output (do_fmt o) r = Ok t) rs ts ->
+  fmt_units o rs = Ok (concat ts).
+Proof.
+  induction rs as [|r rs IH]; intros ts H; inversion H as [|? t ? ts' Hr Hrest]; subst; [reflexivity|].
+  cbn [fmt_units concat]. rewrite Hr, (IH _ Hrest). reflexivity.
+Qed.
+
+Lemma fmt_units_fail o rs r :
+  In r rs -> format_output (do_fmt o) r = Exit1 ->
+  (forall r', In r' rs -> format_output (do_fmt o) r' = Exit1 \/ exists t, format_output (do_fmt o) r' = Ok t) ->
+  fmt_units o rs = Exit1.
+Proof.
+  induction rs as [|r0 rs IH]; intros Hin Hf Hall; [destruct Hin|].
+  cbn [fmt_units].
+  destruct (Hall r0 (or_introl eq_refl)) as [E|[t E]]; rewrite E; [reflexivity|].
+  destruct Hin as [->|Hin]; [congruence|].
+  rewrite (IH Hin Hf (fun r' H' => Hall r' (or_intror H'))). reflexivity.
+Qed.
